@@ -128,9 +128,9 @@ def run_cmd(cmd, env, cwd, log, timeout, mem_gb):
 
 def kani_cmd(job, tdir, out_json, playback=False):
     cmd = ["cargo", "kani", "--harness", job.full, "--exact", "--target-dir", tdir]
-    z = ["-Z", "unstable-options"]
-    if job.stubs:
-        z += ["-Z", "stubbing"]
+    # -Z stubbing is always on: the crate contains harnesses with #[kani::stub] (C17), which otherwise do
+    # not even compile; it has no effect on harnesses without stubs
+    z = ["-Z", "unstable-options", "-Z", "stubbing"]
     if playback:
         z += ["-Z", "concrete-playback", "--concrete-playback=print"]
     cmd += z
@@ -632,7 +632,7 @@ def warm(njobs):
     def one(kind, i):
         slot, fd = acquire_slot(kind)
         try:
-            cmd = ["cargo", "kani", "--only-codegen", "--target-dir", slot]
+            cmd = ["cargo", "kani", "--only-codegen", "-Z", "stubbing", "--target-dir", slot]
             return run_cmd(cmd, base_env(kind == "hook"), HARNESS, os.path.join(logdir, f"{kind}-{i}.log"), 1200, 16)[0]
         finally:
             release_slot(fd)
